@@ -14,7 +14,8 @@ META = dict(
     text="Model-based replay of three small TLA+ specifications of the statement. AuthJwt.tla: symbolic token "
          "classes (signing secret cur/prev/other x alg HS256/384/512/none/RS256-header-over-HMAC/altered signature "
          "x time valid/expired/not-yet/no-claims x claim sets x bearer/malformed/missing/wrong-scheme) against the "
-         "three route configurations (WithJwt, WithJwtTransition, transition with equal secrets); the parser's "
+         "three route configurations (WithJwt, WithJwtTransition, transition with equal secrets) and four server "
+         "constructions (built-in chain, api.WithChain custom chain, Server.Use middleware, both); the parser's "
          "per-secret hit counters and its 24 h reset are state, TLC checks that the try-order can never change the "
          "verdict and enumerates every request sequence (every single token of the full product, all sequences of "
          "2-3 (thorough 4) requests over a representative class set with a 25 h clock advance anywhere). "
@@ -22,7 +23,7 @@ META = dict(
          "3-request sequences over mostly valid cur/prev tokens at once against ONE transition route (>= 30k requests "
          "quick, >= 150k thorough), each request judged by its own step and its own (unique) claims. "
          "AuthSig.tla: full product of method x fingerprint x secret x timestamp offset (exact tolerance "
-         "boundaries) x every set of <= 1 (thorough 2) fields altered after signing x body delivery (known "
+         "boundaries, and int64 extremes: now+-2^55(+-1), +-2^56, +-2^62, 0, MaxInt64, MinInt64) x server construction x every set of <= 1 (thorough 2) fields altered after signing x body delivery (known "
          "Content-Length, unknown length on the recorder, chunked over a real loopback connection). AuthRpc.tla: strict/lenient x "
          "a store that changes between calls (token stored / replaced / deleted, store down / up again) x every "
          "sequence of up to 3 calls over app/token present/empty/absent/matching/differing, unary and stream; a call "
@@ -47,16 +48,17 @@ FINISH = dict(rule="complete TLC enumeration (BFS over the history variable) of 
                    "request of every behaviour is compared with the specification's verdict")
 
 CFGS = '{"single","transition","same"}'
+SERVERS = '{"default","chain","use","chain+use"}'
 
 
 def mc(ctx):
-    K = dict(Tokens="AllTokens", Cfgs=CFGS, MaxReq=3)
+    K = dict(Tokens="AllTokens", Cfgs=CFGS, Servers=SERVERS, MaxReq=3)
     cfg = core.render_cfg(spec="Spec", constants=K, view="core",
                           invariants=["TypeOK", "OrderCannotMatter", "AdmitShape", "NeverRegistered"])
     r = ctx.tlc("AuthJwt", cfg, constants=K, name="AuthJwt-mc", workers=W, coverage=True)
     ctx.check_coverage(r, ["Request", "Advance"])
     K = dict(MaxTamper=2)
-    cfg = core.render_cfg(spec="Spec", constants=K, invariants=["AnyTamperDenied", "HonestPasses", "OutsideToleranceDenied", "TransportIrrelevant"])
+    cfg = core.render_cfg(spec="Spec", constants=K, invariants=["AnyTamperDenied", "HonestPasses", "OutsideToleranceDenied", "TransportIrrelevant", "ServerIrrelevant"])
     ctx.tlc("AuthSig", cfg, constants=K, name="AuthSig-mc", workers=W)
     K = dict(MaxCalls=3, MaxEnv=2, Kinds='{"unary","stream"}', CallSet="AllCalls")
     cfg = core.render_cfg(spec="Spec", constants=K, view="core",
@@ -80,10 +82,11 @@ def run(ctx):
     q = ctx.quick
     plans = [
         # every single token class of the full product, each configuration
-        ("jwt1", "AuthJwtGen", dict(Tokens="AllTokens", Cfgs=CFGS, MaxReq=1), api),
+        ("jwt1", "AuthJwtGen", dict(Tokens="AllTokens", Cfgs=CFGS, Servers=SERVERS, MaxReq=1), api),
         # request sequences (parser ordering states, clock advance)
-        ("jwt2", "AuthJwtGen", dict(Tokens="CoreTokens", Cfgs=CFGS, MaxReq=2), api),
-        ("jwt3", "AuthJwtGen", dict(Tokens=("FewTokens" if q else "CoreTokens"), Cfgs=CFGS, MaxReq=3), api),
+        ("jwt2", "AuthJwtGen", dict(Tokens="CoreTokens", Cfgs=CFGS, Servers=SERVERS, MaxReq=2), api),
+        ("jwt3", "AuthJwtGen", dict(Tokens=("FewTokens" if q else "CoreTokens"), Cfgs=CFGS,
+                                    Servers=('{"default","chain"}' if q else SERVERS), MaxReq=3), api),
         ("sig", "AuthSigGen", dict(MaxTamper=(1 if q else 2)), api),
         # single calls over the full metadata product, then sequences with the store changing in between
         ("rpc1", "AuthRpcGen", dict(MaxCalls=1, MaxEnv=0, Kinds='{"unary","stream"}', CallSet="AllCalls"), rpc),
@@ -92,7 +95,7 @@ def run(ctx):
                                     CallSet=("FewCalls" if q else "CoreCalls")), rpc),
     ]
     if not q:
-        plans.insert(3, ("jwt4", "AuthJwtGen", dict(Tokens="FewTokens", Cfgs=CFGS, MaxReq=4), api))
+        plans.insert(3, ("jwt4", "AuthJwtGen", dict(Tokens="FewTokens", Cfgs=CFGS, Servers='{"default","chain+use"}', MaxReq=4), api))
     for name, module, K, binp in plans:
         cases = gen(ctx, module, name, K)
         path, n = ctx.write_cases(name + ".ndjson", cases)
@@ -102,12 +105,12 @@ def run(ctx):
         else:
             ctx.replay(RPC_PKG, RPC_OV, RPC_RUN, path, label=name, shards=8, binp=binp)
     # seeded long request histories against one parser
-    K = dict(Tokens="CoreTokens", Cfgs=CFGS, MaxReq=12)
+    K = dict(Tokens="CoreTokens", Cfgs=CFGS, Servers=SERVERS, MaxReq=12)
     cases = gen(ctx, "AuthJwtGen", "jwtsim", K, simulate=(300 if q else 1000), depth=16)
     path, n = ctx.write_cases("jwtsim.ndjson", cases)
     ctx.replay(API_PKG, API_OV, API_RUN, path, label="jwtsim", shards=8, binp=api)
     # concurrent stage: the same behaviours, many at once, against ONE route / parser
-    K = dict(Tokens="ConcTokens", Cfgs='{"transition"}', MaxReq=3)
+    K = dict(Tokens="ConcTokens", Cfgs='{"transition"}', Servers='{"default"}', MaxReq=3)
     cases = [c for c in gen(ctx, "AuthJwtGen", "jwtconc", K) if '"advance"' not in c]
     path, n = ctx.write_cases("jwtconc.ndjson", cases)
     need = 30000 if q else 150000
@@ -124,7 +127,7 @@ def run(ctx):
 def replay(ctx, rp):
     if (rp.get("key") or "").startswith("C04:jwt:concurrent"):
         # a concurrent disagreement is re-executed as the whole stage, not as one behaviour
-        K = dict(Tokens="ConcTokens", Cfgs='{"transition"}', MaxReq=3)
+        K = dict(Tokens="ConcTokens", Cfgs='{"transition"}', Servers='{"default"}', MaxReq=3)
         cases = [c for c in gen(ctx, "AuthJwtGen", "jwtconc", K) if '"advance"' not in c]
         path, _ = ctx.write_cases("jwtconc.ndjson", cases)
         ctx.replay(API_PKG, API_OV, "^TestVerifC04JwtConc$", path, label="replay", gomaxprocs=8,
